@@ -103,7 +103,7 @@ M("ss_no_truncation", "truncation to the box dropped", ["C09"],
   ("lbfgsb/subspacemin.py", "    return np.clip(xc + alpha_star * Z @ dHat, lb, ub)", "    return xc + Z @ dHat"))
 M("ss_no_projection", "subspace point returned unprojected (reverse of fix b3344a3); shows as a spurious failed line search when the point lands one ulp outside a bound a variable rests on: rare, probabilistic in the quick tier", ["C09", "C06"],
   ("lbfgsb/subspacemin.py", "    return np.clip(xc + alpha_star * Z @ dHat, lb, ub)", "    return xc + alpha_star * Z @ dHat"))
-M("mats_no_refresh_on_cholesky_failure", "LinAlgError of the Cholesky factorisation escapes (reverse of fix dc83f52); needs curvatures spanning >16 decades: probabilistic", ["C04"],
+M("mats_no_refresh_on_cholesky_failure", "LinAlgError of the Cholesky factorisation escapes (reverse of fix dc83f52); needs curvatures spanning >16 decades (C04's underflow_valley batch provides them)", ["C04"],
   ("lbfgsb/bfgsmats.py", "        except np.linalg.LinAlgError:\n            # nonpositive definiteness", "        except ZeroDivisionError:\n            # nonpositive definiteness"))
 M("ss_K_theta", "K built with 1/theta dropped", ["C09"],
   ("lbfgsb/subspacemin.py", "    K[:m, :m] = -mats.D - (1 / mats.theta) * YTZZTY", "    K[:m, :m] = -mats.D - YTZZTY"))
